@@ -50,10 +50,11 @@ def default_val(kind):
 
 
 class SV:
-    __slots__ = ("kind", "null", "val", "fields")
+    __slots__ = ("kind", "null", "val", "fields", "dc")
 
-    def __init__(self, kind, null, val, fields=None):
-        self.kind, self.null, self.val, self.fields = kind, null, val, fields
+    def __init__(self, kind, null, val, fields=None, dc=None):
+        # dc: optional z3 Bool "don't care" - oracle side only: where true, any value is accepted
+        self.kind, self.null, self.val, self.fields, self.dc = kind, null, val, fields, dc
 
     def __repr__(self):
         return "SV(%s, null=%s, %s)" % (self.kind, self.null, self.val if self.fields is None else self.fields)
@@ -88,10 +89,17 @@ def as_kind(sv, kind):
             return sv
         return SV(kind, TRUE, default_val(kind))
     if sv.kind == "int" and kind == "real":
-        return SV("real", sv.null, z3.ToReal(sv.val))
+        return SV("real", sv.null, z3.ToReal(sv.val), dc=sv.dc)
     if sv.kind == "date" and kind == "int" or sv.kind == "int" and kind == "date":
         return SV(kind, sv.null, sv.val)
     raise Unsupported("coerce %s -> %s" % (sv.kind, kind))
+
+
+def keep_dc(new, *olds):
+    for o in olds:
+        if o.dc is not None:
+            new.dc = o.dc if new.dc is None else z3.Or(new.dc, o.dc)
+    return new
 
 
 def unify(a, b):
@@ -121,6 +129,12 @@ def ite(c, a, b):
             return SV("struct", z3.If(c, a.null, b.null), None, f)
         return SV("struct", z3.If(c, a.null, b.null), None, {n: ite(c, a.fields[n], b.fields[n]) for n in a.fields})
     return SV(k, z3.If(c, a.null, b.null), z3.If(c, a.val, b.val))
+
+
+def same_dc(a, b):
+    """same(), accepting anything where one side declares don't-care (oracle cells outside its domain)"""
+    dcs = [x.dc for x in (a, b) if x.dc is not None]
+    return z3.Or(same(a, b), *dcs) if dcs else same(a, b)
 
 
 def same(a, b):
